@@ -485,7 +485,7 @@ def schedule(ctx, queries, run1):
     return [results[q.name] for q in queries]
 
 
-def main_check(prop, plan, tier, seed, level_text='', extra_assumptions=None, replay=None):
+def main_check(prop, plan, tier, seed, level_text='', extra_assumptions=None, replay=None, evidence_name=None):
     ctx = Ctx(prop, tier, seed)
     ctx.default_timeout = int(os.environ.get('VERIF_QUERY_TIMEOUT', '900' if tier == 'quick' else '3000'))
     t0 = time.time()
@@ -593,7 +593,7 @@ def main_check(prop, plan, tier, seed, level_text='', extra_assumptions=None, re
             'violations': violations,
         }
         os.makedirs(os.path.join(VERIF, 'evidence'), exist_ok=True)
-        with open(os.path.join(VERIF, 'evidence', prop + '.json'), 'w') as f:
+        with open(os.path.join(VERIF, 'evidence', (evidence_name or prop) + '.json'), 'w') as f:
             json.dump(ev, f, indent=1)
         log('[%s] held=%d violated=%d inconclusive=%d wall=%.0fs' % (prop, held, violations, inconclusive, time.time() - t0))
         if violations:
